@@ -35,3 +35,33 @@ def exists(xs, f):
 
 def members(enum_cls):
     return list(enum_cls)
+
+
+# ---- ghost state (symbolic runs only; natively these are never reached because assumed/callee-only contracts are not
+# ---- executed in replays) ----------------------------------------------------------------------------------------
+def havoc_bool(name):
+    raise RuntimeError('havoc_* is only meaningful in symbolic runs')
+
+
+def havoc_enum(name, cls):
+    raise RuntimeError('havoc_* is only meaningful in symbolic runs')
+
+
+def havoc_int(name):
+    raise RuntimeError('havoc_* is only meaningful in symbolic runs')
+
+
+def havoc_str(name):
+    raise RuntimeError('havoc_* is only meaningful in symbolic runs')
+
+
+def ghost_set(key, value):
+    raise RuntimeError('ghost state is only meaningful in symbolic runs')
+
+
+def ghost_get(key, default=None):
+    raise RuntimeError('ghost state is only meaningful in symbolic runs')
+
+
+def symbolic_run():
+    return False
